@@ -183,7 +183,7 @@ func (it *Interp) round(es []sched.Entry) string {
 		BeforeStart: func(tid int) { it.clk.SetMs(ths[tid].clock) },
 		OnTick:      func(ms uint64) { it.clk.Ns += ms * 1e6 },
 		StepTimeout: 5 * time.Minute,
-		MaxSteps:    200000,
+		MaxSteps:    20000, // a legitimate round takes a few hundred steps; a livelock must end quickly
 	})
 	if rep.Err != nil {
 		return "sched-error " + strings.ReplaceAll(rep.Err.Error(), "\n", " ")
